@@ -4,16 +4,21 @@ Lines starting with `#` are echoed (case delimiters; they also reset per-case mo
 Unknown or malformed ops answer `bad-op` (never defaulted).
 -/
 import MetricsVerif.Driver.C08
+import MetricsVerif.Driver.Prom
 
 open MetricsVerif.Driver
 
 structure DState where
-  dummy : Unit := ()
+  prom : Option MetricsVerif.Prom.St := none
 
 def step (st : DState) (line : String) : DState × String :=
   if line.startsWith "#" then ({}, line) else
   match line.splitOn " " with
   | "c08" :: args => (st, (C08.handle args).getD "bad-op")
+  | "prom" :: args =>
+    match Prom.handle st.prom args with
+    | some (p, o) => ({ st with prom := p }, o)
+    | none => (st, "bad-op")
   | _ => (st, "bad-op")
 
 partial def loop (h : IO.FS.Stream) (out : IO.FS.Stream) (st : DState) : IO Unit := do
